@@ -585,3 +585,111 @@ def run_C03(ctx):
 
 
 register("C03", ["Guard.Properties.C03"], run_C03)
+
+
+# =============================================================================== C01
+
+def spec_requests(results):
+    reqs, idx = [], []
+    for i, r in enumerate(results):
+        if r.get("ast") is not None and r.get("doc") is not None:
+            e = vlib.env_request(r["ast"], r["doc"])
+            reqs.append((i, e))
+    return reqs
+
+
+def judge_spec(ctx, res, results, label):
+    """the documented-semantics Spec (Lean) against the IMPLEMENTATION's verdicts"""
+    pre = spec_requests(results)
+    envs = ctx.hp.map([dict(e, id=i) for i, e in pre])
+    reqs = []
+    for (i, _), env in zip(pre, envs):
+        env = dict(env)
+        env.pop("id", None)
+        reqs.append({"id": i, "op": "spec", "ast": results[i]["ast"], "doc": results[i]["doc"], "env": env})
+    resp = ctx.mp.map(reqs)
+    for (i, _), m in zip(pre, resp):
+        r = results[i]
+        impl = r["impl"]
+        sp = m.get("spec")
+        res.stats["spec:" + str(sp)] += 1
+        if sp == "ok":
+            if impl.get("kind") == "ok":
+                if impl["rules"] != m["rules"] or impl["status"] != m["status"]:
+                    res.judge_failures.append({
+                        "what": "%s: reported statuses differ from the documented semantics: tool %s/%s, spec %s/%s" % (
+                            label, impl["rules"], impl["status"], m["rules"], m["status"]),
+                        "class": "c01-verdict", "rules": r["case"]["rules"], "data": r["case"]["data"]})
+                else:
+                    res.stats["spec-agree"] += 1
+                    res.nontrivial.add(vlib.sha(r["case"]["rules"] + "\0" + r["case"]["data"]))
+            elif impl.get("kind") == "err":
+                res.judge_failures.append({
+                    "what": "%s: the tool raised %s where the documented semantics is defined (%s)" % (label, impl.get("err"), m["rules"]),
+                    "class": "c01-spurious-error", "rules": r["case"]["rules"], "data": r["case"]["data"]})
+        elif sp == "undefined":
+            if impl.get("kind") == "ok":
+                res.judge_failures.append({
+                    "what": "%s: the documented semantics is undefined (evaluation error expected) but the tool answered %s" % (label, impl["rules"]),
+                    "class": "c01-missing-error", "rules": r["case"]["rules"], "data": r["case"]["data"]})
+            else:
+                res.stats["spec-agree-error"] += 1
+
+
+def core_cases(seed, n):
+    out = []
+    for i in range(n):
+        g = gen.G(seed * 7000003 + i, core=True)
+        d = g.doc()
+        out.append({"rules": g.rules_file(d, depth=2, cfn=False), "data": json.dumps(d)})
+    return out
+
+
+def single_clause_cases(ctx):
+    """the exhaustive single-clause stream over a fixed value universe"""
+    doc = {"k": None}
+    vals = [None, True, 0, 1, 1.5, "", "a", [], [1], [1, 2], ["a", 1], {}, {"x": 1}, [{"x": 1}, {"x": 2}], {"x": [1, 2]}]
+    shapes = ["k", "k.*", "k[*]", "k[0]", "k.x", "k[ x == 1 ]", "k[*].x", "k[ x exists ].x", "zz"]
+    rhs = ["1", "2", "\"a\"", "\"\"", "1.5", "true", "null", "[1, 2]", "[1]", "[]", "r[0,1]", "{\"x\": 1}", "/a/"]
+    cases = []
+    rng = random.Random(ctx.seed)
+    for v in vals:
+        d = json.dumps({"k": v})
+        for sh in shapes:
+            for some in ("", "some "):
+                for neg in ("", "not "):
+                    lines = []
+                    for op in UNARY:
+                        lines.append("rule u_%s { %s%s%s %s }" % (op, neg, some, sh, op))
+                        lines.append("rule n_%s { %s%s%s !%s }" % (op, neg, some, sh, op))
+                    cases.append({"rules": "\n".join(lines) + "\n", "data": d})
+                    sel = rhs if ctx.thorough() else rng.sample(rhs, 3)
+                    for r in sel:
+                        lines = []
+                        for nm, o in [("eq", "=="), ("ne", "!="), ("gt", ">"), ("ge", ">="), ("lt", "<"), ("le", "<="), ("in", "in"), ("nin", "not in")]:
+                            lines.append("rule b_%s { %s%s%s %s %s }" % (nm, neg, some, sh, o, r))
+                        cases.append({"rules": "\n".join(lines) + "\n", "data": d})
+    return cases
+
+
+def run_C01(ctx):
+    res = Result("(a) exhaustive single-clause programs: 15 values x 9 query shapes x all/some x prefix-not x "
+                 "(9 unary x 2 polarities | 8 binary operators x literal right-hand sides); (b) random core-fragment rule "
+                 "files x documents.  Every case is evaluated by the implementation, by the model (correspondence) and "
+                 "by the documented-semantics Spec (judge); non-trivial = inside the Spec's fragment and evaluated")
+    cases = load_corpus("C01") + single_clause_cases(ctx)
+    results = vlib.correspond(cases, ctx.hp, ctx.mp)
+    absorb(res, results, "C01 single-clause stream")
+    res.nontrivial = set()
+    judge_spec(ctx, res, results, "single clause")
+    n = 20000 if ctx.thorough() else 2000
+    cases2 = core_cases(ctx.seed, n)
+    results2 = vlib.correspond(cases2, ctx.hp, ctx.mp)
+    absorb(res, results2, "C01 core programs")
+    judge_spec(ctx, res, results2, "core program")
+    for r in (results + results2)[:2]:
+        res.add_sample({"rules": r["case"]["rules"][:400], "data": r["case"]["data"], "impl": r["impl"].get("rules")})
+    return res
+
+
+register("C01", ["Guard.Properties.C01"], run_C01)
